@@ -45,6 +45,8 @@ type c20Input struct {
 	UA          string     `json:"ua,omitempty"`
 	PeerTrace   []string   `json:"peer_trace,omitempty"`
 	Events      []c20Event `json:"events"`
+	Deliv       string     `json:"deliv,omitempty"` // delivery scenario on the real DirectTransmission instead of a request
+	DelivSeed   int64      `json:"deliv_seed,omitempty"`
 }
 
 func init() {
@@ -194,6 +196,9 @@ func c20NestedMap(r *rand.Rand, mode string, depth int) []mpField {
 }
 
 func c20Gen(r *rand.Rand, tier string, i int) any {
+	if k := r2DelivSchedule(i); k != "" {
+		return c20Input{Path: "batch-msgp", Deliv: k, DelivSeed: r.Int63n(1 << 30)}
+	}
 	in := c20Input{Path: []string{"batch-msgp", "batch-msgp", "batch-json", "event-json", "event-msgp", "otlp-msgp"}[r.Intn(6)]}
 	mode := "msgp"
 	if strings.HasSuffix(in.Path, "json") {
@@ -512,6 +517,15 @@ func c20Run(raw json.RawMessage) (Case, error) {
 	if err := json.Unmarshal(raw, &in); err != nil {
 		return Case{}, err
 	}
+	if in.Deliv != "" {
+		res, err := r2DelivRun(in.Deliv, in.DelivSeed)
+		if err != nil {
+			return Case{}, err
+		}
+		coq := fmt.Sprintf("{| c_path := PBatchMsgp; c_cfg := {| trace_names := []; parent_names := []; key_fields := [] |}; c_ua := \"\"; c_widen := []; c_events := []; c_deliv := %s |}", r2DelivCoq(res))
+		return Case{Coq: coq, Key: string(raw), Nontriv: true, Tags: []string{"delivery:" + in.Deliv},
+			Summary: map[string]any{"delivery": in.Deliv, "events": len(res.Expected), "arrived": len(res.Arrived), "notes": res.Human}}, nil
+	}
 	env, err := r2NewEnv(r2Options{TraceNames: in.TraceNames, ParentNames: in.ParentNames, KeyFields: in.KeyFields,
 		Incoming: true, PeerTraceIDs: in.PeerTrace})
 	if err != nil {
@@ -719,7 +733,7 @@ func c20Run(raw json.RawMessage) (Case, error) {
 		tags = append(tags, "value:"+t)
 	}
 	sort.Strings(tags)
-	coq := fmt.Sprintf("{| c_path := %s; c_cfg := {| trace_names := %s; parent_names := %s; key_fields := %s |}; c_ua := %s; c_widen := %s; c_events := %s |}",
+	coq := fmt.Sprintf("{| c_path := %s; c_cfg := {| trace_names := %s; parent_names := %s; key_fields := %s |}; c_ua := %s; c_widen := %s; c_events := %s; c_deliv := [] |}",
 		c20PathCoq(in.Path), cq.ListStr(in.TraceNames), cq.ListStr(in.ParentNames), cq.ListStr(keyFields), cq.Str(in.UA), mpWidenCoq(widen), cq.List(evs))
 	key, _ := json.Marshal(in)
 	return Case{Coq: coq, Key: string(key), Nontriv: nontriv, Tags: tags,
